@@ -70,3 +70,58 @@ Proof. vm_compute. repeat split. Qed.
 (* from_ident on the crate's own names *)
 Lemma builtin_names_roundtrip : forall b, builtin_of_name (builtin_name b) = Some b.
 Proof. destruct b; vm_compute; reflexivity. Qed.
+
+(* ---- word and symbol spellings ---- *)
+(* the spelling pairs of the property text *)
+Definition same_spelling (r1 r2 : oprule) : bool :=
+  oprule_eqb r1 r2 ||
+  match r1, r2 with
+  | R_and, R_natural_and | R_natural_and, R_and
+  | R_or, R_natural_or | R_natural_or, R_or
+  | R_invert, R_natural_not | R_natural_not, R_invert => true
+  | _, _ => false
+  end.
+(* the evaluator's view of a constructor: evaluate_ast / evaluate_binary_op_ast match
+   `And | NaturalAnd`, `Or | NaturalOr`, `Not | Invert` in shared arms (checked on the source text
+   by checks/c10.py:spelling_arms_shared and by the EVAL-spelling stream) *)
+Definition sem_binop (o : binop) : binop :=
+  match o with NaturalAnd => And | NaturalOr => Or | o' => o' end.
+Definition sem_unop (u : unop) : unop := match u with Invert => Not | u' => u' end.
+Inductive token_sem := TSBin (o : binop) | TSUn (u : unop) | TSSpread | TSNone.
+Definition token_sem_eqb (a b : token_sem) : bool :=
+  match a, b with
+  | TSBin x, TSBin y => binop_eqb x y
+  | TSUn x, TSUn y => unop_eqb x y
+  | TSSpread, TSSpread | TSNone, TSNone => true
+  | _, _ => false
+  end.
+Definition token_sem_of (r : oprule) : token_sem :=
+  match assoc_find r infix_map, assoc_find r prefix_map with
+  | Some o, _ => TSBin (sem_binop o)
+  | None, Some (PUn u) => TSUn (sem_unop u)
+  | None, Some PSpread => TSSpread
+  | None, None => TSNone
+  end.
+Definition opt_entry_eqb (a b : option (affix * nat)) : bool :=
+  match a, b with
+  | Some (x, p), Some (y, q) => affix_eqb x y && Nat.eqb p q
+  | None, None => true
+  | _, _ => false
+  end.
+Definition spelling_ok (r1 r2 : oprule) : bool :=
+  implb (same_spelling r1 r2)
+        (opt_entry_eqb (assoc_find r1 impl_table) (assoc_find r2 impl_table) &&
+         token_sem_eqb (token_sem_of r1) (token_sem_of r2)).
+Lemma word_symbol_same_all :
+  forallb (fun r1 => forallb (spelling_ok r1) all_oprules) all_oprules = true.
+Proof. vm_compute. reflexivity. Qed.
+
+Lemma word_symbol_same : forall r1 r2, same_spelling r1 r2 = true ->
+  opt_entry_eqb (assoc_find r1 impl_table) (assoc_find r2 impl_table) = true /\
+  token_sem_eqb (token_sem_of r1) (token_sem_of r2) = true.
+Proof.
+  intros r1 r2 H.
+  pose proof (proj1 (forallb_forall _ _) word_symbol_same_all r1 (all_oprules_complete r1)) as H1.
+  pose proof (proj1 (forallb_forall _ _) H1 r2 (all_oprules_complete r2)) as H2.
+  unfold spelling_ok in H2. rewrite H in H2. cbn [implb] in H2. apply andb_prop in H2. exact H2.
+Qed.
